@@ -239,8 +239,9 @@ func (w *World) effectsIn(fn *ssa.Function, region func(*ssa.BasicBlock) bool, o
 					continue
 				}
 				s := callSym(c)
-				if !all {
-					// only effects that cannot be inlined away: other packages, interface methods
+				_, isGo := in.(*ssa.Go)
+				if !all && !isGo {
+					// only effects that cannot be inlined away: other packages, interface methods, goroutine starts
 					if !c.IsInvoke() && s.pkg == ownPkg {
 						continue
 					}
